@@ -3,7 +3,7 @@
 set -e
 cd "$(dirname "$0")"
 mkdir -p _build
-cp ../coq/clemens_model.ml ../coq/clemens_model.mli conv.ml reg.ml h_*.ml driver.ml _build/
+cp ../coq/clemens_model.ml ../coq/clemens_model.mli conv.ml posio.ml reg.ml h_*.ml driver.ml _build/
 cd _build
 HS=$(ls h_*.ml | LC_ALL=C sort)
-ocamlfind ocamlopt -w -a -package str -linkpkg clemens_model.mli clemens_model.ml conv.ml reg.ml $HS driver.ml -o driver
+ocamlfind ocamlopt -w -a -package str -linkpkg clemens_model.mli clemens_model.ml conv.ml posio.ml reg.ml $HS driver.ml -o driver
